@@ -1453,7 +1453,11 @@ where
     }
 
     async fn req_send_item(&mut self, req: SendItemRequest) -> Result<(), RunError<T::Error>> {
-        debug_assert!(self.senders.contains_key(&req.cookie));
+        // The end may have been closed meanwhile through another value with the same cookie (an
+        // unbound sender can be bound more than once). There is nothing to send then.
+        if !self.senders.contains_key(&req.cookie) {
+            return Ok(());
+        }
 
         let msg = SendItem {
             cookie: req.cookie,
@@ -1467,7 +1471,11 @@ where
         &mut self,
         req: AddChannelCapacity,
     ) -> Result<(), RunError<T::Error>> {
-        debug_assert!(self.receivers.contains_key(&req.cookie));
+        // See req_send_item.
+        if !self.receivers.contains_key(&req.cookie) {
+            return Ok(());
+        }
+
         send!(self, req)
     }
 
